@@ -8,6 +8,8 @@ import (
 	"os"
 	"path/filepath"
 	"strings"
+	"sync"
+	"time"
 
 	"github.com/lidofinance/dc4bc/client/api/dto"
 	"github.com/lidofinance/dc4bc/client/types"
@@ -151,6 +153,129 @@ func checkC15(c *Ctx) {
 	worlds := c.Pick(12, 400)
 	Parallel(worlds, 12, func(wi int) { runC15(c, wi, c.Seed*109+uint64(wi)) })
 	c15RoundTrip(c)
+	c15ConcurrentDuplicates(c)
+}
+
+// c15ConcurrentDuplicates: "cannot be answered again" also when the same result is submitted twice at the
+// same time (a double POST, a retry overlapping a slow send): all interleavings with <= 2 pre-emptions of
+// two identical submissions, at the granularity of State/Storage calls.
+func c15ConcurrentDuplicates(c *Ctx) {
+	for _, kind := range []string{"operation-result", "approve-participation"} {
+		w, err := world.NewWorld(world.Options{N: 2, T: 2, Seed: c.Seed*149 + uint64(len(kind))})
+		if err != nil {
+			c.Inconclusive("world: %v", err)
+			return
+		}
+		v := w.Nodes[1]
+		if _, err := w.StartDKG(0, 2, now()); err != nil {
+			w.Close()
+			return
+		}
+		var call func() error
+		var want int
+		if kind == "approve-participation" {
+			_, _ = v.PollStep(0)
+			ops := w.PendingOps(v)
+			if len(ops) != 1 {
+				w.Close()
+				continue
+			}
+			id := ops[0].ID
+			call = func() error { return v.Svc.ApproveParticipation(&dto.OperationIdDTO{OperationID: id}) }
+			want = 1
+		} else {
+			w.OpFilter = func(n *world.Node, op *types.Operation) bool { return !(n.Idx == 1 && string(op.Type) == OpCommits) }
+			w.Run(world.EagerPolicy, 2000)
+			w.OpFilter = nil
+			var pend *types.Operation
+			for _, o := range w.PendingOps(v) {
+				if string(o.Type) == OpCommits {
+					pend = o
+				}
+			}
+			if pend == nil {
+				w.Close()
+				continue
+			}
+			res, err := w.ColdResult(v, pend, false)
+			if err != nil {
+				w.Close()
+				continue
+			}
+			call = func() error { return v.Svc.ProcessOperation(world.OpToDTO(cloneOp(res))) }
+			want = len(res.ResultMsgs)
+		}
+		snap := v.Mem.Snapshot()
+		board := w.Board.Len()
+		// count points of one call
+		pts := 0
+		v.State.SetGate(func(op, key string, val []byte) string { pts++; return "" })
+		v.NB.SetGate(func(op, key string, val []byte) string { pts++; return "" })
+		_ = call()
+		v.State.SetGate(nil)
+		v.NB.SetGate(nil)
+		seen := map[string]bool{}
+		try := func(plan []int) {
+			v.Mem.Restore(snap)
+			w.Board.Truncate(board)
+			b := sched.NewBaton(0, plan)
+			gate := func(op, key string, val []byte) string { b.Point(); return "" }
+			v.State.SetGate(gate)
+			v.NB.SetGate(gate)
+			var errs [2]error
+			var wg sync.WaitGroup
+			for id := 0; id < 2; id++ {
+				wg.Add(1)
+				go func(id int) {
+					defer wg.Done()
+					b.Enter(id)
+					defer b.Exit(id)
+					defer func() {
+						if r := recover(); r != nil {
+							errs[id] = fmt.Errorf("PANIC %v", r)
+						}
+					}()
+					errs[id] = call()
+				}(id)
+			}
+			done := make(chan struct{})
+			go func() { wg.Wait(); close(done) }()
+			select {
+			case <-done:
+			case <-time.After(20 * time.Second):
+				b.Stop()
+				c.Inconclusive("concurrent duplicate submissions: schedule %v hung", plan)
+				return
+			}
+			b.Stop()
+			v.State.SetGate(nil)
+			v.NB.SetGate(nil)
+			c.Eval(1)
+			if seen[string(b.Trace)] {
+				return
+			}
+			seen[string(b.Trace)] = true
+			c.Distinct("concurrent-duplicates|" + kind + "|" + string(b.Trace))
+			posted := w.Board.Len() - board
+			okCalls := 0
+			for _, e := range errs {
+				if e == nil {
+					okCalls++
+				}
+			}
+			if posted != want || okCalls != 1 {
+				c.Violate("C15/operation-answered-twice-by-concurrent-submissions:"+kind, fmt.Sprintf("two identical %s submissions at the same time: %d call(s) accepted, %d message(s) posted (the result carries %d)", kind, okCalls, posted, want), map[string]interface{}{"kind": kind, "plan": plan, "grant_trace": string(b.Trace), "errors": fmt.Sprint(errs)})
+			}
+		}
+		for s1 := 0; s1 <= pts; s1++ {
+			try([]int{s1})
+			for s2 := 1; s2 <= pts; s2 += 1 + pts/8 {
+				try([]int{s1, s2})
+			}
+		}
+		c.Add("concurrent_duplicate_interleavings", len(seen))
+		w.Close()
+	}
 }
 
 func runC15(c *Ctx, wi int, seed uint64) {
